@@ -41,6 +41,7 @@ func runC20(c *Ctx) {
 	w := GetATWorld()
 	xa := w.OpenXA()
 	xa.SetMaxOpenConns(8)
+	runC20PhaseTwoElsewhere(c, w, xa)
 	rng := NewRng(c.Seed)
 	rounds := c.Budget(3, 12)
 	for round := 0; round < rounds; round++ {
@@ -278,4 +279,80 @@ func runC20(c *Ctx) {
 	}
 	_ = strings.Join
 	_ = sql.ErrNoRows
+}
+
+// runC20PhaseTwoElsewhere: "no connection is lost per transaction" when phase two arrives at a process that does not
+// hold the branch's connection (the holder restarted, the coordinator picked another instance): the connection
+// opened to finish the branch is given back. N transactions, each prepared here, forgotten, and finished.
+func runC20PhaseTwoElsewhere(c *Ctx, w *ATWorld, xa *sql.DB) {
+	for _, commit := range []bool{true, false} {
+		cid := fmt.Sprintf("c20-elsewhere-%d", b2i(commit))
+		if !c.Want(cid) {
+			continue
+		}
+		table := w.NewTableName("else")
+		w.Eng.CreateTable(memdb.TableDef{Name: table, Cols: []memdb.Column{{Name: "id", Type: memdb.TBigInt}, {Name: "n", Type: memdb.TBigInt, Nullable: true}}, PK: []string{"id"}})
+		const n = 6
+		for k := 0; k < n; k++ {
+			w.Eng.InsertRows(table, memdb.Row{int64(k), int64(0)})
+		}
+		w.coord.ResetLog()
+		mgr := datasource.GetDataSourceManager(branch.BranchTypeXA)
+		var before, after int
+		finished := 0
+		crash := safeCall(func() {
+			var todo []BranchInfo
+			for k := 0; k < n; k++ {
+				xid, err := InGlobalTx(fmt.Sprintf("%s-%d", cid, k), func(ctx context.Context) error {
+					_, e := xa.ExecContext(ctx, "UPDATE "+table+" SET n = 1 WHERE id = ?", k)
+					return e
+				})
+				if err != nil {
+					continue
+				}
+				for _, b := range w.coord.RegisteredBranches(xid) {
+					id := fmt.Sprintf("%s-%d", xid, b.BranchID)
+					if w.Eng.XAState(id) != "PREPARED" {
+						continue
+					}
+					if v, ok := mgr.GetCachedResources().Load(b.ResourceID); ok {
+						v.(*sql2.DBResource).Release(id) // this process knows nothing of the branch any more
+					}
+					todo = append(todo, b)
+				}
+			}
+			time.Sleep(50 * time.Millisecond)
+			before = w.Eng.SessionCount()
+			for _, b := range todo {
+				var st branch.BranchStatus
+				var ok bool
+				if commit {
+					st, ok, _ = w.coord.CommitBranch(w.coord.LastSession(), b, 3*time.Second)
+				} else {
+					st, ok, _ = w.coord.RollbackBranch(w.coord.LastSession(), b, 3*time.Second)
+				}
+				if ok && (st == branch.BranchStatusPhasetwoCommitted || st == branch.BranchStatusPhasetwoRollbacked) {
+					finished++
+				}
+			}
+			time.Sleep(50 * time.Millisecond)
+			after = w.Eng.SessionCount()
+		})
+		c.Out.Case(cid, "C20", "skip", "skip")
+		class, detail := "", ""
+		switch {
+		case crash != "":
+			class, detail = "crash", crash
+		case finished < n:
+			class, detail = "phase_two_not_applied", fmt.Sprintf("%d of %d branches finished", finished, n)
+		case after > before:
+			class, detail = "connection_leak", fmt.Sprintf("%d connections to the database before phase two of %d branches, %d after: the connection opened to finish a branch this process does not hold is never closed", before, n, after)
+		}
+		c.Out.Oracle(cid, class == "", class, fmt.Sprintf("%s | commit=%v finished=%d connections %d->%d", detail, commit, finished, before, after))
+		c.Out.Tag(cid, "nontrivial=1")
+		c.Out.Count("elsewhere")
+		xa.SetMaxIdleConns(0)
+		xa.SetMaxIdleConns(2)
+		w.Eng.DropTable(table)
+	}
 }
